@@ -9,6 +9,7 @@ use serde_json::Value;
 mod c01;
 mod c02;
 mod c03;
+mod c05;
 mod c06;
 mod c07;
 mod c18;
@@ -55,7 +56,7 @@ impl Tracer {
         if self.cur.is_none() || self.cur_events >= self.shard_events || self.cur_bytes >= self.shard_bytes {
             self.roll();
         }
-        let r = if ev["op"] == "reset" { Value::Null } else { crate::exec::exec(&ev) };
+        let r = if ev["op"] == "reset" || ev["op"] == "note" { Value::Null } else { crate::exec::exec(&ev) };
         if !r.is_null() {
             ev.as_object_mut().unwrap().insert("r".into(), r.clone());
         }
@@ -64,6 +65,23 @@ impl Tracer {
         writeln!(self.cur.as_mut().unwrap(), "{}", line).unwrap();
         self.cur_events += 1;
         self.total += 1;
+        r
+    }
+    /// execute the event; record it only if the outcome satisfies `keep` (exhaustive enumerations record
+    /// sparsely: e.g. only the strings the parser accepted or panicked on). Returns the outcome.
+    pub fn emit_if<F: Fn(&Value) -> bool>(&mut self, mut ev: Value, keep: F) -> Value {
+        let r = crate::exec::exec(&ev);
+        if keep(&r) {
+            if self.cur.is_none() || self.cur_events >= self.shard_events || self.cur_bytes >= self.shard_bytes {
+                self.roll();
+            }
+            ev.as_object_mut().unwrap().insert("r".into(), r.clone());
+            let line = ev.to_string();
+            self.cur_bytes += line.len();
+            writeln!(self.cur.as_mut().unwrap(), "{}", line).unwrap();
+            self.cur_events += 1;
+            self.total += 1;
+        }
         r
     }
     pub fn finish(&mut self) {
@@ -81,6 +99,7 @@ pub fn drive(prop: &str, tier: &str, seed: u64, outdir: &str) -> u64 {
         "C01" => c01::drive(&mut tr, &mut rng, thorough),
         "C02" => c02::drive(&mut tr, &mut rng, thorough),
         "C03" => c03::drive(&mut tr, &mut rng, thorough),
+        "C05" => c05::drive(&mut tr, &mut rng, thorough),
         "C06" => c06::drive(&mut tr, &mut rng, thorough),
         "C07" => c07::drive(&mut tr, &mut rng, thorough),
         "C18" => c18::drive(&mut tr, &mut rng, thorough),
